@@ -1,11 +1,12 @@
 package props
 
 import (
-	"encoding/binary"
 	"bytes"
+	"encoding/binary"
 	"fmt"
 	"net"
 	"sort"
+	"strings"
 	"sync"
 	"testing"
 	"testing/synctest"
@@ -91,7 +92,8 @@ func c11Alphabet() []appAVP {
 
 type c11Case struct {
 	host, realm bool
-	inband      int // -1 absent, else value
+	inband      int  // -1 absent, else value
+	inbandVS    bool // the AVP with code 299 carries the V bit and a vendor id (not the base Inband-Security-Id)
 	apps        []int
 	nAddrs      int  // configured Host-IP-Address values
 	ipv6        bool // local endpoint
@@ -106,13 +108,17 @@ func (cc c11Case) String(al []appAVP) string {
 		}
 		s += al[a].name
 	}
-	return s + fmt.Sprintf("] configured-addresses=%d ipv6-endpoint=%v zero-ids=%v", cc.nAddrs, cc.ipv6, cc.zeroIDs)
+	return s + fmt.Sprintf("] configured-addresses=%d ipv6-endpoint=%v zero-ids=%v inband-with-vendor-id=%v", cc.nAddrs, cc.ipv6, cc.zeroIDs, cc.inbandVS)
 }
 
 // runC11 executes one CER end to end inside a bubble and applies the oracle.
 func runC11(c *ev.Case, ctx *lib.Ctx, al []appAVP, cc c11Case) {
 	sig := func(op string) ev.Sig {
 		return ev.Sig{"op": op, "ipv6_endpoint": cc.ipv6, "configured_addresses": cc.nAddrs}
+	}
+	logBefore := 0
+	if c11Log != nil {
+		logBefore = len(c11Log.String())
 	}
 	settings := &sm.Settings{OriginHost: "srv.local", OriginRealm: "realm.local", VendorID: 13, ProductName: "verif"}
 	conf := []datatype.Address{datatype.Address(net.IP{192, 0, 2, 1}), datatype.Address(net.ParseIP("2001:db8::7"))}
@@ -159,14 +165,21 @@ func runC11(c *ev.Case, ctx *lib.Ctx, al []appAVP, cc c11Case) {
 	if len(cc.apps) > 0 {
 		inbandPos = c.I % (len(cc.apps) + 1)
 	}
+	inbandNode := func() *refcodec.Node {
+		n := peer.U32(peer.InbandSec, uint32(cc.inband))
+		if cc.inbandVS {
+			n.Flags, n.Vendor = n.Flags|refcodec.AVPFlagV, 99
+		}
+		return n
+	}
 	for i, a := range cc.apps {
 		if i == inbandPos && cc.inband >= 0 {
-			avps = append(avps, peer.U32(peer.InbandSec, uint32(cc.inband)))
+			avps = append(avps, inbandNode())
 		}
 		avps = append(avps, al[a].node())
 	}
 	if inbandPos >= len(cc.apps) && cc.inband >= 0 {
-		avps = append(avps, peer.U32(peer.InbandSec, uint32(cc.inband)))
+		avps = append(avps, inbandNode())
 	}
 	hbh, e2e := uint32(0x11223344), uint32(0x55667788)
 	if cc.zeroIDs {
@@ -223,7 +236,13 @@ func runC11(c *ev.Case, ctx *lib.Ctx, al []appAVP, cc c11Case) {
 	desc := cc.String(al)
 	msgs, rest := peer.SplitMessages(mc.Written())
 	if len(rest) != 0 || len(msgs) != 1 {
-		c.Fail(sig("cea-count"), cer, nil, "%d messages (+%d stray bytes) were written in reply to one CER; %s", len(msgs), len(rest), desc)
+		logged := ""
+		if c11Log != nil {
+			if l := c11Log.String()[logBefore:]; strings.Contains(l, "panic serving") {
+				logged = "; the library logged: " + l[:min(len(l), 400)]
+			}
+		}
+		c.Fail(sig("cea-count"), cer, nil, "%d messages (+%d stray bytes) were written in reply to one CER; %s%s", len(msgs), len(rest), desc, logged)
 		return
 	}
 	cea := msgs[0]
@@ -275,6 +294,16 @@ func runC11(c *ev.Case, ctx *lib.Ctx, al []appAVP, cc c11Case) {
 		if !bytes.Equal(gotAddrs[i], wantAddrs[i]) {
 			c.Fail(sig("cea-host-ip"), cea, nil, "CEA Host-IP-Address %x, expected %x; %s", gotAddrs, wantAddrs, desc)
 			return
+		}
+	}
+	if cc.inbandVS && cc.inband >= 0 {
+		// code 299 under a vendor id is not the base Inband-Security-Id: the state machine may
+		// ignore it or refuse the CER, but it has to answer
+		if rc == 2001 {
+			accept = cc.host && cc.realm && common
+		} else {
+			accept = false
+			causes[5017], causes[5012] = true, true
 		}
 	}
 	closed := mc.CloseCount() > 0
@@ -568,12 +597,16 @@ func runC11Simul(c *ev.Case, ctx *lib.Ctx, K int) {
 	c.Event("simultaneous_first_handshakes", 1)
 }
 
+// what the library logged during the current test (panics recovered while serving)
+var c11Log *logCapture
+
 func TestC11(t *testing.T) {
 	rec := ev.Open(t, "C11")
 	defer rec.Close()
 	ctx := defCtx(t)
 	al := c11Alphabet()
-	_, restore := captureLog()
+	var restore func()
+	c11Log, restore = captureLog()
 	defer restore()
 	// every app sequence up to the bound
 	maxLen := 3
@@ -629,6 +662,7 @@ func TestC11(t *testing.T) {
 	rec.Suite("random", rec.N(2000, 1000000), func(c *ev.Case) {
 		r := c.R
 		cc := c11Case{host: r.IntN(8) != 0, realm: r.IntN(8) != 0, inband: r.IntN(4) - 1, nAddrs: r.IntN(3), ipv6: r.IntN(2) == 0, zeroIDs: r.IntN(4) == 0}
+		cc.inbandVS = r.IntN(6) == 0
 		if cc.inband > 1 {
 			cc.inband = 0
 		}
@@ -649,7 +683,8 @@ func TestC11(t *testing.T) {
 func TestC11Dict(t *testing.T) {
 	rec := ev.Open(t, "C11")
 	defer rec.Close()
-	_, restore := captureLog()
+	var restore func()
+	c11Log, restore = captureLog()
 	defer restore()
 	extra := []string{
 		`<?xml version="1.0" encoding="UTF-8"?><diameter><application id="9001" type="acct" name="Two-Type-A"></application><application id="9002" type="auth" name="Only-Auth"></application></diameter>`,
